@@ -162,8 +162,17 @@ class Timeline:
             if len(a.slots) != len(b.slots) or len(a.eom_blocks) != len(b.eom_blocks):
                 return False
             for x, y in zip(a.slots, b.slots):
-                if (x.kind, x.ti, x.tf, x.targets) != (y.kind, y.ti, y.tf, y.targets):
+                if (x.ti, x.tf, x.targets) != (y.ti, y.tf, y.targets):
                     return False
+                if x.kind != y.kind:
+                    # a plain delay and a detuned delay whose detuning is numerical
+                    # noise (an off-detuning of -1e-15 recomputed from the other EOM
+                    # configuration) are the same instruction
+                    kinds = {x.kind, y.kind}
+                    dd = x if x.kind == "ddelay" else y
+                    if kinds != {"delay", "ddelay"} or np.abs(_arr(dd.pulse.detuning.samples)).max() > 1e-9:
+                        return False
+                    continue
                 if x.pulse is not None:
                     if not (
                         np.allclose(_arr(x.pulse.amplitude.samples), _arr(y.pulse.amplitude.samples), rtol=1e-9, atol=1e-12)
